@@ -162,6 +162,9 @@ def handle (line : String) : String :=
   | "par" :: _ => "skip"
   | "dist" :: _ => "skip"
   | "smerge" :: _ => "skip"
+  | "spar" :: _ => "skip"
+  | "tpar" :: _ => "skip"
+  | "sresp" :: _ => "skip"
   | _ => "bad-op"
 
 def main : IO Unit := runDriver handle
